@@ -15,6 +15,7 @@ import os
 import random
 import re
 import shutil
+import sys
 import traceback
 from typing import Any
 
@@ -284,6 +285,7 @@ class RealCase:
 		self.enabled = enabled
 		self.content_ids: dict[str, int] = {}
 		self.grammars = 0
+		self.last_config_op = ''
 		self.proj = tproj.Project(ctx.tmpdir('tranp-c05-'), package=PKG)
 		self.proj.tick = lib.first_project_mtime
 		for m in self.graph:
@@ -338,6 +340,27 @@ class RealCase:
 		if kind == 'clear':
 			self.proj.clear_cache()
 			return 'clear', None
+		if kind == 'gswitch':
+			# the configuration switches to ANOTHER grammar file that carries the SAME mtime (True / False exchanged in it)
+			if os.path.isabs(self.proj.grammar_path):
+				self.grammars += 1
+				self.proj.set_grammar_copy(f'g{self.grammars}.lark')
+			cur = os.path.join(self.proj.root, self.proj.grammar_path)
+			with open(cur, encoding='utf-8') as f:
+				text = f.read()
+			a, b = '| "True" -> const_true', '| "False" -> const_false'
+			a2, b2 = '| "True" -> const_false', '| "False" -> const_true'
+			text = text.replace(a, a2, 1).replace(b, b2, 1) if a in text else text.replace(a2, a, 1).replace(b2, b, 1)
+			self.grammars += 1
+			name = f'g{self.grammars}.lark'
+			with open(os.path.join(self.proj.root, name), 'w', encoding='utf-8') as f:
+				f.write(text)
+			st = os.stat(cur)
+			os.utime(os.path.join(self.proj.root, name), ns=(st.st_mtime_ns, st.st_mtime_ns))
+			self.proj.grammar_path = name
+			self.proj.write_config()
+			self.last_config_op = 'gswitch'
+			return f"setting\t{hx(name)}\t{hx('file_input')}\t{hx('lalr')}", None
 		if kind == 'gedit':
 			# the grammar FILE is edited in place (same path, new content and mtime): the aliases of True / False are exchanged
 			if not self.proj.grammar_path.endswith('.lark') or os.path.isabs(self.proj.grammar_path):
@@ -558,6 +581,8 @@ def diagnose_warm_cold(ctx: Ctx, lib: LibInfo, case: 'RealCase', pre: tproj.Proj
 			return 'symbols-restore-differs', 'restoring the symbol files gives other symbols than analysing, although no source in the import closure changed since they were written'
 		return 'symbols-stale-other', f'stale symbol files: {stale}'
 	if rerun_without(lambda rel: rel.endswith('.json')) == cold:
+		if case.last_config_op == 'gswitch':
+			return 'tree-key-ignores-grammar-path', 'the configured grammar file changed (same mtime, other path): the cached trees of the other grammar are reused — the tree-cache identity does not cover the grammar path (regression of 9dfb5b4)'
 		return 'tree-stale', 'a cached syntax tree differs from a fresh parse'
 	return 'parser-stale', 'the cached parser differs from a fresh one'
 
@@ -614,6 +639,7 @@ def search_warm_cold(ctx: Ctx, only: list[tuple[str, dict[str, int], list[list[s
 		leaf = [m for m in graph if not graph[m]][-1]
 		histories.append((shape, variants, [['run', '1'], ['edit', leaf, str(variants[leaf] + 24)], ['run', '1'], ['edit', leaf, str(variants[leaf])], ['run', '0']]))
 		histories.append(('chain2', {'a': 23, 'b': 23}, [['grammar'], ['run', '1'], ['gedit'], ['run', '1'], ['run', '0']]))
+		histories.append(('chain2', {'a': 23, 'b': 23}, [['grammar'], ['run', '1'], ['gswitch'], ['run', '1']]))
 	n_random = ctx.scale(5, 80) if only is None else 0
 	hist: dict[str, int] = {}
 	seen: set[str] = set()
@@ -868,7 +894,7 @@ def search_disabled(ctx: Ctx, only: list[tuple[str, dict[str, int], list[list[st
 
 
 STATEMENTS: dict[str, str] = {
-	'tree_key': 'for every semantics with injective digests, every history (edit with fresh mtime / grammar change with fresh mtime / run / run -f / clear / delete / trunc / enable) from an empty project and cache, and every run: each tree the run obtains (cached or not) is the fresh parse of the module\'s current source with the parser of the current setting',
+	'tree_key': 'for every semantics with injective digests, every history (edit with fresh mtime / grammar change with fresh mtime / ParserSetting change (grammar path, start, algorithm; mtimes untouched) / run / run -f / clear / delete / trunc / enable) from an empty project and cache, and every run: each tree the run obtains (cached or not) is the fresh parse of the module\'s current source with the parser of the current setting (tree identity = grammar path, start, algorithm, grammar mtime, source mtime: 9dfb5b4)',
 	'tree_key_warm_cold': 'hence the tree of a module in the warm run equals its tree in the run over the cleared cache directory',
 	'evict_keeps_written': 'after a cache miss the file named by the current identity exists and holds the fresh value, whatever the eviction glob matched',
 	'evict_safe': 'both coherence invariants (tree/parser cache, symbol cache) survive the deletion of an arbitrary list of cache files: the over-matching glob is benign',
@@ -879,10 +905,40 @@ STATEMENTS: dict[str, str] = {
 	'parser_key': 'along every history the parser a run works with is the one built from the current grammar path, start, algorithm and grammar mtime; file names of different settings differ (a pickle is reused only when all four are unchanged)',
 	'parser_truncated': 'a pickle that does not decode (proper prefix) is a load failure: no parser is set, the error is the load error',
 	'disabled': 'enabled = False: the access log of a run is empty and the cache directory unchanged, for every semantics and world',
+	'tree_key_setting': 'tree_key_setting_statement (tree_key spelled out for histories whose only restriction is KeyOK on edits, i.e. with arbitrary ParserSetting switches) holds — it was refuted before 9dfb5b4 (tree-key-ignores-grammar-path); the refuting history is kept as an example: the second run reads no tree file and its tree carries the mark of the second grammar; real regression corpus/C05/grammar-switch-same-mtime.json',
+	'parser_key_covers': 'GENERATED key list (Generated/LarkCache.parserIdentity, every expression understood) = [grammar mtime, grammar path, start, algorithm] and it covers everything the pickle is built from',
+	'tree_key_inputs': 'GENERATED key list of the tree files (LarkCache.treeIdentity, every expression understood) = [grammar mtime, grammar path, start, algorithm, source mtime]',
+	'tree_key_covers': 'the generated tree key covers what a cached tree depends on (the parser\'s inputs and the source); the key before 9dfb5b4, as a literal list, does not (example: exactly grammar path, start, algorithm missing)',
+	'tree_name_exact': 'model = code on the key: two runs give a tree file the same name in the model iff they agree on every input of the GENERATED tree key list',
+	'parser_name_exact': 'the same for the parser pickle and the GENERATED parser key list',
+	'symbol_identity_shape': 'Module.identity / __collect_hashes / depends_on, statement by statement as generated from the source, are the shapes identityCore / collect of the model implement (object id without source file, memo, visited test first, own hash before descending, direct imports without depends_on, sorted path:hash pairs of the other files, own hash last)',
+	'symbol_key_covers': 'the components Module.identity appends (generated) are own hash, and path and hash of each other collected file; they cover what a symbol table depends on (the run-level statement from exactly these components is `symbols`)',
+	'symbol_key_no_grammar': 'no grammar input is in the symbol key (a fact about the key, recorded; no real witness of different tables for equal bytes is known)',
+	'file_hash_exact': 'FileLoader.load hashes exactly the bytes read in binary mode (generated statements); hash() of an unloaded file loads it',
+	'gates_shape': 'the persistor\'s _can_store/_can_restore start with setting.enabled and in_storage and test absence/presence of the file; CacheProvider.get picks CachedDummy when disabled (generated)',
+	'file_name_shape': 'file names and eviction patterns of Cached and of the persistor, eviction before write, restore = json.loads of the whole file (generated) as cachePath / evictPattern / symPath of the model',
 }
 
 
+def translate(ctx: Ctx) -> tuple[bool, str]:
+	"""What the code hashes into the three cache keys, as Lean tables: the identity dictionaries of parser.py
+	(translate/gen_lark_cache.py, shared with C15) and Module.identity / FileLoader.load / the persistor's gates and file names /
+	Cached (translate/gen_cache_keys.py). A shape a translator does not recognise breaks the tie."""
+	with ctx.timed('translate'):
+		try:
+			from translate import gen_cache_keys, gen_lark_cache
+			ctx.generated_tables.extend(gen_lark_cache.generate())
+			ctx.generated_tables.extend(gen_cache_keys.generate())
+			return True, ''
+		except Exception as e:  # noqa: BLE001
+			msg = f'{type(e).__name__}: {e}'
+			ctx.notes.append(f'translator failed: {msg}')
+			print(f'[{ctx.prop}] translator failed (the tie is broken): {msg}', file=sys.stderr)
+			return False, msg
+
+
 def run(ctx: Ctx) -> int:
+	translate_ok, translate_msg = translate(ctx)
 	proof = common.prove(ctx, PROP, leanchecker=ctx.thorough)
 	streams: list[Stream] = []
 	searches: list[SearchResult] = []
@@ -901,14 +957,14 @@ def run(ctx: Ctx) -> int:
 			streams = [stream_cachefs(ctx)]
 		with ctx.timed('search'):
 			searches = [search_warm_cold(ctx), search_truncation(ctx), search_disabled(ctx)]
-	return common.finish(ctx, proof, streams, searches, statements=STATEMENTS,
+	return common.finish(ctx, proof, streams, searches, translate_ok=translate_ok, translate_msg=translate_msg, statements=STATEMENTS,
 		partial={
 			'sentence 1 (warm output = cold output)': 'proved on the model: output_warm_cold (rendered text, failure status, loaded modules, trees, tables equal) for acyclic import graphs, histories without interrupted write / grammar change; tree_key, symbols also for histories with trunc ops (per module, when both runs succeed)',
 			'sentence 1 (no cache file read or written when disabled)': 'proved (disabled)',
 			'sentence 2 (damaged file: rebuild or fail)': 'truncate (JSON printer model) + Hyp.prefix_invalid / dec_prefix inside tree_key/symbols/parser_key (histories contain trunc ops); parser_truncated; that pickle.load / json.load reject every proper prefix of the real files is validated by the truncation search',
 			'search_only': 'the real renderer and analyser (parameters of the model); output equality on the real code',
-			'regression': 'corpus/C05: the histories that violated the property before a3f0216 / a383b4a are replayed first and must pass',
-			'observation (not a finding: outside the property\'s history ops)': 'the symbol-file identity does not cover the grammar, and the tree identity covers the grammar mtime but not its path/start/algorithm: `symbols`/`output_warm_cold` assume no grammar change, `tree_key` assumes a grammar change refreshes the grammar mtime',
+			'regression': 'corpus/C05: the histories that violated the property before a3f0216 / a383b4a / 9dfb5b4 are replayed first and must pass',
+			'key coverage': 'per cache, over key lists GENERATED from the source: parser_key_covers (covers), tree_key_covers (covers since 9dfb5b4; run-level: tree_key admits ParserSetting switches, tree_key_setting), symbol_key_covers (covers the import closure; symbol_key_no_grammar: nothing of the grammar — `symbols`/`output_warm_cold` assume no grammar change); tree_name_exact / parser_name_exact tie the model\'s file names to the generated lists in both directions; the symbol identity is tied statement by statement (symbol_identity_shape), its reading as identityCore/collect is by inspection',
 		},
 		assumptions=[
 			'md5 is injective on the identities of a history and hex digests contain no "-" (Hyp.tree_inj, parser_inj, hash_inj, identL_inj, *_nodash) — hypotheses of the theorems, instantiated by unary codes in the examples',
